@@ -216,8 +216,7 @@ class CCInit(FnSpec):
         s = F.addr("self")
         cur = F.old.h("g:curctx")
         return [
-            ("self-is-a-new-context-object", z3.And(Val.is_ref(F.t("self")), 0 <= s, s < F.old.alloc, z3.Not(is_ctx(F.old, s)),
-                                                    z3.Not(z3.Select(F.old.g("g:cc_init"), s)))),
+            ("self-is-a-new-context-object", z3.And(Val.is_ref(F.t("self")), 0 <= s, s < F.old.alloc, z3.Not(is_ctx(F.old, s)))),
             ("current-context-is-an-initialised-context", z3.Or(cur == VNone, z3.And(Val.is_ref(cur), is_ctx(F.old, Val.a(cur)),
                                                                                      z3.Implies(is_cc(F.old, cur), z3.Select(F.old.g("g:cc_init"), Val.a(cur)))))),
         ]
